@@ -94,7 +94,14 @@ pub fn run_c03(ctx: &Ctx) -> (&'static str, &'static str) {
     {
         use pairing_plus::bls12_381::{G1, G2};
         use pairing_plus::CurveProjective;
-        let big: Vec<BigUint> = vec![BigUint::zero(), BigUint::one(), r() - 1u32, r().clone(), r() + 1u32, alpha::pow2(255) - 1u32, alpha::pow2(255) + 3u32, alpha::pow2(256) - 1u32, (r() << 1) + 5u32];
+        let mut big: Vec<BigUint> = vec![BigUint::zero(), BigUint::one(), r() - 1u32, r().clone(), r() + 1u32, alpha::pow2(255) - 1u32, alpha::pow2(255) + 3u32, alpha::pow2(256) - 1u32, (r() << 1) + 5u32];
+        // scalars that fill a whole number of 64-bit words exactly (2^(64j-1) .. 2^(64j)-1), one more bit, and the BLS parameter
+        for j in 1..=3usize {
+            big.push(alpha::pow2(64 * j - 1));
+            big.push(alpha::pow2(64 * j) - 1u32);
+            big.push(alpha::pow2(64 * j));
+        }
+        big.push(BigUint::from(0xd201000000010000u64));
         let nb = big.len() as u64;
         let rad = [nb, nb, 2];
         ctx.sweep(
